@@ -18,7 +18,7 @@ def run(tier, seed):
     for k in range(n):
         t = threads[k % len(threads)]
         law = (k // len(threads) + k) % 4
-        uses = (100000 if tier == "quick" else 600000) // (4 if law == 3 else 1)
+        uses = (60000 if tier == "quick" else 600000) // (4 if law == 3 else 1) // (3 if t > 8 else 1)
         e = exe if k % 2 else exa
         cases.append({"cmd": [e, str(t), str(uses), str(law), str(seed * 1000 + k)], "tag": "N=%d/law=%d" % (t, law), "w": t})
     results, batch, weight = [], [], 0
@@ -36,7 +36,7 @@ def run(tier, seed):
             if anomaly.startswith("san:"):
                 chk.violation("sanitizer:" + anomaly[4:], res.err[:1500], {"cmd": res.cmd})
             elif anomaly == "timeout":
-                chk.inconc("wall-clock backstop fired on %s (the state-based watchdog did not declare a stall)" % res.tag)
+                chk.inconc_case("wall-clock backstop fired on %s (the state-based watchdog did not declare a stall)" % res.tag)
             else:
                 chk.inconc("%s on %s: %s" % (anomaly, res.tag, res.err[-300:]))
     chk.rule = ("one case = (threads 1..16, consecutive uses, arrival-delay law, seed); laws: none / random spins before arrival / one slow thread "
@@ -44,4 +44,4 @@ def run(tier, seed):
                 "had left use k (measured through the enter/exit hooks); distinct = (threads, law, seed)")
     chk.assumptions = ["memory visibility across the barrier is not claimed (exits are relaxed loads)",
                        "a stall is declared only when no use completes over 100 samples while every unfinished thread is inside the barrier"]
-    return chk.finish(min_evals=8, require={"barrier_uses": 100000, "uses_entered_before_previous_use_fully_left": 100, "injected_spin_delays": 100})
+    return chk.finish(min_evals=8, require={"barrier_uses": 50000, "uses_entered_before_previous_use_fully_left": 100, "injected_spin_delays": 100})
